@@ -10,11 +10,15 @@ CONSTANTS
   MaxOps = 4
   Variant = "explicit"
   Steps <- MCSteps
+  Algo = "lstsq"
+  Garbage = 1000
   Record = FALSE
   Temps = {200, 1000}
 INVARIANT NormalEquations
 INVARIANT Optimal
 INVARIANT Reproduces
+INVARIANT FitIsContraction
+INVARIANT OffsetsBounded
 INVARIANT KeysAreDescriptors
 INVARIANT TrefIsMean
 INVARIANT MinNorm
